@@ -78,6 +78,17 @@ CHECKS.update({
                      "12 reprs; at token level no user-visible item has a mode- or shape-dependent signature."),
 })
 
+CHECKS.update({
+    "C02": dict(engine="E4 checked_derive + E3 driver + Miri", design="§5 C02, §2.4",
+                note="Trusted base: the E4 rewrite pass (token-level: transmute -> declared-discriminant lookup by the compiler's `E::V as repr`, unwrap_unchecked -> expect, "
+                     "MaybeUninit -> CheckedUninit; an unknown call inside an unsafe block makes the monitored build unavailable = exit 2, never a verdict); Miri "
+                     "(nightly) as an interpreter with UB detection over the executions the driver enumerates - the coverage statement is the enumeration, not a proof.",
+                technique="the bounded exhaustive drivers of C01-C08 (all 8/16-bit arguments, string neighbourhoods, all variant pairs, iterator operation histories) executed on expansions with a monitor on every unchecked assumption, and on the unmodified derive under the Miri interpreter",
+                text="Every transmute, unwrap_unchecked and assume_init of the generated code is checked at the moment it executes, for every argument / pair / history the "
+                     "drivers enumerate, in five mode sets that reach every unsafe site, on F(2,2,2)+L (quick) / F(3,3,3)+L+H (thorough); every returned value must carry a "
+                     "declared discriminant. A Miri slice (quick: 13 subjects; thorough: 70+) covers unsafe operations the monitor list does not know."),
+})
+
 HOOKS = {
     "guard": "enum_tools_verif",
     "enable": "RUSTFLAGS=\"--cfg enum_tools_verif\" when lib/e1.py builds engines/xpand for C17 (target/xpand-seam); every other engine builds /repo with the guard off",
@@ -86,8 +97,14 @@ HOOKS = {
     "add_only": True,
 }
 
+ENGINES_EXTRA = [
+    {"name": "E4 checked_derive", "path": "engines/checked_derive, engines/verif_rt, lib/e4.py, lib/props_ub.py", "serves_properties": ["C02"],
+     "kind_free_text": "proc-macro that runs /repo's parser+generator (included by #[path]) and rewrites every unchecked assumption into a monitor; plus cargo +nightly miri run of the same drivers"},
+]
+
 ENGINES = [
     {"name": "E1 xpand", "path": "engines/xpand, engines/vendor/proc-macro-error, lib/e1.py",
      "serves_properties": ["C09", "C10", "C15", "C17", "C19"],
      "kind_free_text": "/repo's parser and generator compiled unmodified (by #[path]) into a normal binary; configuration-space enumeration, item splitter, closure classes"},
 ]
+ENGINES += ENGINES_EXTRA
